@@ -27,6 +27,9 @@ func callersOf(fn *ssa.Function) []ssa.CallInstruction {
 	if symCallers == nil {
 		symCallers = map[*ssa.Function][]ssa.CallInstruction{}
 		for _, f := range symU.Funcs {
+			if f.Synthetic != "" {
+				continue // wrappers of promoted methods only forward
+			}
 			for _, b := range f.Blocks {
 				for _, ins := range b.Instrs {
 					if call, ok := ins.(ssa.CallInstruction); ok {
